@@ -121,6 +121,11 @@ func runHistory(cv cvar, op string) {
 		r := cv.codec.NewReader(bytes.NewReader(bad))
 		readChunks(r, 64, 0)
 		r.Close()
+	case "error2":
+		w := cv.codec.NewWriter(failWriter{})
+		w.Write(hist)
+		w.Close()
+		w.Close()
 	case "other":
 		if cv.ref != refwire.Snappy {
 			return
@@ -191,6 +196,23 @@ func roundTrip(cv cvar, data []byte, wchunk, rbuf int) *seqx.Viol {
 	if err != nil || !bytes.Equal(got, data) {
 		return &seqx.Viol{Sig: cv.name + ":read-reference-stream", Msg: fmt.Sprintf("%s reader over a reference-encoded stream of %d bytes (read buffer %d): err=%v, got %d bytes, first difference at %d", cv.name, len(data), rbuf, err, len(got), firstDiff(got, data))}
 	}
+	// 4. two streams written at the same time (interleaved) by two writers of the codec do not mix
+	if len(data) >= 100 && len(data) <= 40000 {
+		var b1, b2 bytes.Buffer
+		w1, w2 := cv.codec.NewWriter(&b1), cv.codec.NewWriter(&b2)
+		d2 := append([]byte("second stream:"), data[:len(data)/2]...)
+		half := len(data) / 2
+		w1.Write(data[:half])
+		w2.Write(d2[:len(d2)/2])
+		w1.Write(data[half:])
+		w2.Write(d2[len(d2)/2:])
+		e1, e2 := w1.Close(), w2.Close()
+		o1, err1 := refwire.Decompress(cv.ref, b1.Bytes())
+		o2, err2 := refwire.Decompress(cv.ref, b2.Bytes())
+		if e1 != nil || e2 != nil || err1 != nil || err2 != nil || !bytes.Equal(o1, data) || !bytes.Equal(o2, d2) {
+			return &seqx.Viol{Sig: cv.name + ":interleaved-writers", Msg: fmt.Sprintf("two %s writers used at the same time: close errors %v/%v, reference decoder %v/%v, stream 1 holds %d bytes (want %d), stream 2 %d (want %d)", cv.name, e1, e2, err1, err2, len(o1), len(data), len(o2), len(d2))}
+		}
+	}
 	return nil
 }
 
@@ -230,7 +252,9 @@ func TestCheck(t *testing.T) {
 	histories := [][]string{{}}
 	// "other": the pooled objects were last used by another codec value that shares the pools (snappy with the
 	// other framing; a no-op for the other codecs)
-	hops := []string{"clean", "error", "half", "other"}
+	// "error2": as "error", but the writer whose Close failed is closed a second time (defer w.Close() after an
+	// explicit Close)
+	hops := []string{"clean", "error", "half", "other", "error2"}
 	for _, a := range hops {
 		histories = append(histories, []string{a})
 		for _, b := range hops {
